@@ -418,10 +418,36 @@ def eval_c14(item):
                 out["abort_raised"] = False
             except BaseException:  # noqa
                 out["abort_raised"] = True
+        def frozen_values():
+            """values (generated ones included) of every configuration that is already sealed (e.g. upstream tasks submitted earlier)"""
+            from experimaestro.core.objects import Config
+            snap = {}
+            for l in G["nodes"]:
+                o = B.tasks.get(l) or B.objs.get(l)
+                if o is None or "output_of" in G["nodes"][l] or not o.__xpm__._sealed:
+                    continue
+                snap[l] = {k: (("cfg", id(v)) if isinstance(v, Config) else repr(v)) for k, v in o.__xpm__.values.items()}
+            return snap
+
+        with_instance = route.startswith("instance+")
+        if with_instance:
+            route = route[9:]
+        frozen = frozen_values()
+        if with_instance:
+            # the task is first turned into a runtime object in a directory context of its own (a debugging run): this seals it
+            from experimaestro.xpmutils import DirectoryContext
+            from pathlib import Path
+            (B.tasks[root] if root in B.tasks else B.objs[root]).instance(DirectoryContext(Path(Gr._STATE["dir"]) / "debug"))
         if route == "submit":
             if not submittable:
                 return out
             Gr.seal_root(G, B)
+            now = frozen_values()
+            for l, vals in frozen.items():
+                if now.get(l) != vals:
+                    ch = sorted(k for k in vals if now.get(l, {}).get(k) != vals[k])
+                    out["problems"].append({"kind": "sealed-value-changed-by-later-submission", "label": l, "fields": ch,
+                                            "before": {k: vals[k] for k in ch}, "now": {k: now.get(l, {}).get(k) for k in ch}})
         else:
             from experimaestro.xpmutils import DirectoryContext
             from pathlib import Path
